@@ -20,15 +20,18 @@ for p in props:
     extra = ""
     if "ctx.presentations(" in src:
         extra += (" Each judged call is also repeated with value-identical presentations of "
-                  "its inputs (strided, negatively strided, Fortran-ordered and read-only "
-                  "arrays must be accepted and give the same result; lists, pandas objects "
-                  "incl. a non-default index and exact int64 copies may be refused but not "
-                  "answered differently; DESIGN 12.7).")
+                  "its inputs (strided, negatively strided, Fortran-ordered, read-only, "
+                  "other-byte-order, ndarray-subclass and memory-mapped arrays must be "
+                  "accepted and give the same result; lists, pandas objects incl. a "
+                  "non-default index, exact int64 and narrow-integer copies may be refused "
+                  "but not answered differently; DESIGN 12.7).")
     if "ctx.reuse(" in src or "reuse" in src:
         extra += (" Reuse step: the same argument objects are passed again, results kept "
                   "by the caller must not be overwritten by later calls, and a call made "
                   "after the caller edited its results must still give the first answer "
-                  "(DESIGN 12.8).")
+                  "(DESIGN 12.8); the call is repeated once more in a process left in an "
+                  "unusual state - errno set, FP flags raised, fd 1 unwritable, terse print "
+                  "options - and must answer the same (DESIGN 12.9).")
     checks.append({
         "property_id": pid,
         "quick_cmd": f"./check {pid} --tier quick",
